@@ -111,9 +111,16 @@ def same_enumeration(ctx):
         ctx.undecided("C01.5", fn, "loop draining the hasher not found")
     else:
         l = dr[0]
-        body_ok = len(l.body) == 1 and isinstance(l.body[0], ast.Expr) and isinstance(l.body[0].value, ast.Call) and norm(l.body[0].value.func).endswith(".extend") \
-            and norm(l.body[0].value.args[0]) == norm(l.target)
-        acc = norm(l.body[0].value.func.value) if body_ok else "?"
+        exts = [x for st in l.body for x in ast.walk(st) if isinstance(x, ast.Call) and isinstance(x.func, ast.Attribute) and x.func.attr == "extend" and x.args
+                and norm(x.args[0]) == norm(l.target)]
+        skips = [x for st in l.body for x in ast.walk(st) if isinstance(x, (ast.Break, ast.Continue, ast.Return))]
+        body_ok = False
+        acc = "?"
+        if len(exts) == 1 and not skips:
+            head = g.of[l]
+            bs = C.succ_by_label(head, "iter")[0]
+            body_ok = g.must_pass(bs, head, {C.stmt_node(ctx, fn, exts[0])})
+            acc = norm(exts[0].func.value)
         stored = any(isinstance(n, ast.Assign) and isinstance(n.targets[0], ast.Subscript) and const_str(n.targets[0].slice) == "pieces" and norm(n.value) == acc for n in own_nodes(fn.node))
         ctx.decide("C01.5", fn, body_ok and stored, "the piece string is the concatenation, in order, of every hash the hasher yields",
                    "the piece string is not the plain concatenation of everything the hasher yields", l)
